@@ -66,9 +66,10 @@ const (
 	opWait
 	opAtomic
 	opTry
+	opIO
 )
 
-var opNames = []string{"start", "Mutex.Lock", "RWMutex.RLock", "RWMutex.Lock(announce)", "RWMutex.Lock(acquire)", "WaitGroup.Wait", "atomic", "TryLock"}
+var opNames = []string{"start", "Mutex.Lock", "RWMutex.RLock", "RWMutex.Lock(announce)", "RWMutex.Lock(acquire)", "WaitGroup.Wait", "atomic", "TryLock", "file-op"}
 
 type op struct {
 	kind opKind
@@ -382,6 +383,19 @@ func (s *Sched) finish(t *Thread) {
 	s.running = next
 	s.mu.Unlock()
 	next.gate <- struct{}{}
+}
+
+// IOEnabled switches the file-system scheduling points on (set by the harness per scenario).
+var IOEnabled bool
+
+// IOPoint is the scheduling point of a local-storage file operation (always enabled).
+func IOPoint() {
+	if !IOEnabled {
+		return
+	}
+	if t := current(); t != nil {
+		t.s.yield(t, &op{kind: opIO})
+	}
 }
 
 // AtomicPoint is the scheduling point of an atomic operation (always enabled).
